@@ -527,6 +527,84 @@ def _initial_means(ctx, R, f, type_consts, eof, consts):
     return True
 
 
+def _qlpc_scaling(ctx, R, f, samp):
+    """QLPC sample = residual + floor(prediction / 2^LPCQUANT): the scaling rounds towards minus infinity (an arithmetic right
+    shift), also for negative predictions.  The stored value is evaluated for predictions on both sides of zero."""
+    prog = ctx.prog
+    what = "QLPC sample = residual + (prediction >> LPCQUANT), rounding towards minus infinity"
+    last = samp.body[-1]
+    if not (isinstance(last, ast.Assign) and astq.text(last.targets[0]).replace(" ", "") == "cbuffer[%s]" % (samp.target.id if isinstance(samp.target, ast.Name) else "i")):
+        ctx.error(R, "cannot decide %s: the sample loop does not end with the store of the new sample" % what)
+        return
+    consts = module_consts(prog)
+    q = consts.get("LPCQUANT")
+    # the expression with the prediction and the residual as free variables
+    import copy
+    expr = copy.deepcopy(last.value)
+    resid_calls = [c for c in ast.walk(expr) if isinstance(c, ast.Call) and astq.is_name(c.func, "var_get")]
+    if len(resid_calls) != 1 or not isinstance(q, int):
+        ctx.error(R, "cannot decide %s: %s" % (what, astq.text(last)[:80]))
+        return
+
+    class Sub(ast.NodeTransformer):
+        def visit_Call(self, node):
+            if node is resid_calls[0]:
+                return ast.copy_location(ast.Name(id="__resid", ctx=ast.Load()), node)
+            return self.generic_visit(node)
+    expr = Sub().visit(expr)
+    names = {x.id for x in ast.walk(expr) if isinstance(x, ast.Name)}
+    pred = [n_ for n_ in names if n_ not in ("__resid", "LPCQUANT", "V2LPCQOFFSET", "int", "float", "c99_div", "np", "numpy")]
+    if len(pred) != 1:
+        ctx.error(R, "cannot decide %s: free names %s in %s" % (what, sorted(pred), astq.text(last)[:80]))
+        return
+    ALLOWED = (ast.Expression, ast.BinOp, ast.UnaryOp, ast.Name, ast.Constant, ast.Load, ast.Add, ast.Sub, ast.Mult, ast.FloorDiv, ast.Div, ast.RShift, ast.LShift,
+               ast.USub, ast.Call, ast.Pow)
+    if not all(isinstance(x, ALLOWED) for x in ast.walk(expr)) or any(
+            isinstance(x, ast.Call) and not (isinstance(x.func, ast.Name) and x.func.id in ("int", "float", "c99_div")) for x in ast.walk(expr)):
+        ctx.error(R, "cannot decide %s: %s" % (what, astq.text(last)[:80]))
+        return
+    # the package's own c99_div is int(float(a) / b): truncation towards zero (read from its definition, not assumed)
+    cd = f.module.functions.get("c99_div")
+    c99 = None
+    if cd is not None:
+        body = [b for b in cd.node.body if not (isinstance(b, ast.Expr) and isinstance(b.value, ast.Constant))]
+        if len(body) == 1 and isinstance(body[0], ast.Return) and astq.text(body[0].value).replace(" ", "") in ("int(float(a)/b)", "int(a/b)"):
+            c99 = lambda a, b: int(float(a) / b)
+    if any(isinstance(x, ast.Name) and x.id == "c99_div" for x in ast.walk(expr)) and c99 is None:
+        ctx.error(R, "cannot decide %s: c99_div is not the documented int(float(a) / b)" % what)
+        return
+    def fold(n, env):
+        """integer / float arithmetic over the whitelisted node kinds"""
+        if isinstance(n, ast.Constant):
+            return n.value
+        if isinstance(n, ast.Name):
+            return env[n.id]
+        if isinstance(n, ast.UnaryOp):
+            return -fold(n.operand, env)
+        if isinstance(n, ast.BinOp):
+            a, b = fold(n.left, env), fold(n.right, env)
+            return {ast.Add: lambda: a + b, ast.Sub: lambda: a - b, ast.Mult: lambda: a * b, ast.FloorDiv: lambda: a // b, ast.Div: lambda: a / b,
+                    ast.RShift: lambda: a >> b, ast.LShift: lambda: a << b, ast.Pow: lambda: a ** b}[type(n.op)]()
+        if isinstance(n, ast.Call):
+            args = [fold(a, env) for a in n.args]
+            return env[n.func.id](*args)
+        raise ValueError(type(n).__name__)
+    for p_ in (-97, -64, -33, -32, -31, -1, 0, 1, 31, 32, 33, 1000):
+        env = {"int": int, "float": float, "c99_div": c99, "LPCQUANT": q, "V2LPCQOFFSET": consts.get("V2LPCQOFFSET"), "__resid": 7, pred[0]: p_}
+        try:
+            got = fold(expr, env)
+        except Exception as e:
+            ctx.error(R, "cannot decide %s: %r" % (what, e))
+            return
+        want = 7 + (p_ >> q)
+        if got != want:
+            ctx.bad(R, f, last, "for a prediction of %d the sample stored is residual + %d, the format says residual + %d (%d >> %d): `%s` does not round towards minus "
+                    "infinity for negative predictions, and the error feeds back through the predictor's history" % (p_, got - 7, want - 7, p_, q, astq.text(last.value)[:60]),
+                    what, robust=True)
+            return
+    ctx.ok(R, f.loc(last), what, "scaling evaluated for 12 predictions on both sides of zero")
+
+
 def predictors(ctx, f):
     prog = ctx.prog
     R = "R-C13-predictors"
@@ -596,6 +674,7 @@ def predictors(ctx, f):
                     and isinstance(o.value, ast.Subscript) and isinstance(o.value.slice, ast.Slice)):
                 return o.value
             return o
+        n_rev = sum(1 for o in ops if _unrev(o) is not o)
         ops = [_unrev(o) for o in ops]
         hist = [o for o in ops if isinstance(o, ast.Subscript) and astq.base_name(o) == "cbuffer" and isinstance(o.slice, ast.Slice)]
         ctx.need(len(hist) == 1 and hist[0].slice.lower is not None and hist[0].slice.upper is not None, R, "history slice of the vectorised QLPC prediction not recognised")
@@ -608,7 +687,24 @@ def predictors(ctx, f):
                     "an earlier block of higher order (on any channel) act as extra taps whenever a later block uses a lower order" % S.show(width)[:60],
                     "QLPC prediction is lpcqoffset + sum_j qlpc[j] * x[i-j-1] over j < nlpc")
             return
-        raise AnalysisError("%s: vectorised QLPC prediction over nlpc taps: tap order not modelled" % R)
+        # tap order: coefficient j meets sample i - j - 1, i.e. exactly one of the two slices is walked backwards, and the
+        # coefficients are the first nlpc of the table
+        coef = [o for o in ops if o is not hist[0]]
+        cw = None
+        if len(coef) == 1 and isinstance(coef[0], ast.Subscript) and astq.base_name(coef[0]) == "qlpc" and isinstance(coef[0].slice, ast.Slice) and coef[0].slice.step is None:
+            lo_ = coef[0].slice.lower
+            if (lo_ is None or (isinstance(lo_, ast.Constant) and lo_.value == 0)) and coef[0].slice.upper is not None:
+                cw = evv.expr(coef[0].slice.upper)
+        upper_is_i = astq.text(hist[0].slice.upper) == samp.target.id if isinstance(samp.target, ast.Name) else False
+        if cw is None or S.compare(cw, S.sym("nlpc"), domain={})["verdict"] != "equal" or not upper_is_i:
+            raise AnalysisError("%s: vectorised QLPC prediction over nlpc taps: operands not modelled" % R)
+        if n_rev != 1:
+            ctx.bad(R, f, samp, "the vectorised QLPC prediction pairs coefficient j with history sample i - nlpc + j (%s slices reversed): the most recent sample must "
+                    "meet the first coefficient" % ("both" if n_rev == 2 else "neither of the"), "QLPC prediction is lpcqoffset + sum_j qlpc[j] * x[i-j-1] over j < nlpc")
+            return
+        ctx.ok(R, f.loc(samp), "QLPC prediction is lpcqoffset + sum_j qlpc[j] * x[i-j-1] over j < nlpc", "vectorised: inner product of qlpc[:nlpc] with the reversed history")
+        _qlpc_scaling(ctx, R, f, samp)
+        return
     evq = cc.body_eval(prog, f, samp.body)
     s_val = evq.env.get("sum")
     j = S.sym("@elem")
@@ -628,9 +724,7 @@ def predictors(ctx, f):
         ok = ok and len(init) == 1 and astq.text(init[0].value) == "lpcqoffset"
     ctx.check(ok, R, f, samp, "QLPC prediction is lpcqoffset + sum_j qlpc[j] * x[i-j-1] over j < nlpc",
               "QLPC accumulation is not lpcqoffset + sum_{j<nlpc} qlpc[j]*cbuffer[i-j-1]")
-    last = samp.body[-1]
-    okl = isinstance(last, ast.Assign) and astq.text(last.targets[0]) == "cbuffer[i]" and astq.eq_text(last.value, "var_get(resn)+(sum>>LPCQUANT)")
-    ctx.check(okl, R, f, last, "QLPC sample = residual + (prediction >> LPCQUANT)", "QLPC sample is %s" % astq.text(last))
+    _qlpc_scaling(ctx, R, f, samp)
     pre = [s for s in q if isinstance(s, ast.AugAssign) and isinstance(s.op, ast.Sub)]
     okp = len(pre) == 1 and astq.eq_text(pre[0].target, "cbuffer[nwrap-nlpc:nwrap]") and astq.text(pre[0].value) == "coffset"
     ctx.check(okp, R, f, pre[0] if pre else MISSING(samp), "QLPC removes the running mean from the nlpc history samples first",
